@@ -191,6 +191,11 @@ func (ld *Loader) constGlobal(gl *ssa.Global) (*ssa.Const, bool) {
 									inits[g0] = append(inits[g0], c)
 									continue
 								}
+								if al, ok := x.Val.(*ssa.Alloc); ok && al.Heap {
+									// var g = &T{...}: a pointer to a new object
+									errInits[g0]++
+									continue
+								}
 								if c, ok := x.Val.(*ssa.Call); ok {
 									if cal := c.Call.StaticCallee(); cal != nil && (cal.String() == "errors.New" || cal.String() == "github.com/cockroachdb/errors.New" || cal.String() == "fmt.Errorf") {
 										errInits[g0]++
